@@ -412,12 +412,32 @@ func (w *world) appendCmds(cmds []Cmd) {
 		}
 		w.log = append(w.log, &entry{index: w.nextIndex, spec: c, cmd: dec, raw: raw})
 		st := w.states[len(w.states)-1].Clone()
-		w.exp = append(w.exp, st.Apply(dec))
-		w.states = append(w.states, st)
 		li := w.leader[len(w.leader)-1]
-		if dec.LeaderIndex != nil {
+		if dec.Type == regattapb.Command_SEQUENCE && dec.LeaderIndex != nil && *dec.LeaderIndex <= li {
+			// exactly once (C05): a replicated sequence that does not take the table beyond the leader
+			// index it is already at repeats leader commands; it has no effect and answers like a no-op
+			w.exp = append(w.exp, st.Apply(&regattapb.Command{Type: regattapb.Command_DUMMY}))
+			w.out.Probe("stale-sequence-in-log")
+		} else if dec.Type == regattapb.Command_SEQUENCE && dec.LeaderIndex != nil {
+			// ... and of a longer one, the commands at or below that leader index (each replicated command
+			// carries its own) are the ones already applied: only the rest takes effect
+			eff := &regattapb.Command{Type: regattapb.Command_SEQUENCE, Table: dec.Table}
+			for _, sc := range dec.Sequence {
+				if sc.LeaderIndex != nil && *sc.LeaderIndex <= li {
+					w.out.Probe("stale-sequence-head-in-log")
+					continue
+				}
+				eff.Sequence = append(eff.Sequence, sc)
+			}
+			w.exp = append(w.exp, st.Apply(eff))
 			li = *dec.LeaderIndex
+		} else {
+			w.exp = append(w.exp, st.Apply(dec))
+			if dec.LeaderIndex != nil {
+				li = *dec.LeaderIndex
+			}
 		}
+		w.states = append(w.states, st)
 		w.leader = append(w.leader, li)
 		if dec.LeaderIndex != nil {
 			w.sawLI = true
